@@ -13,6 +13,8 @@ Inductive case :=
 (* a real operator: runners, barriers of checkpoint a from [first] before the second deploy (observed results),
    then barriers of checkpoint b from every runner in order [second] (observed results) *)
 | SlotCase (pre_ok : bool)             (* a retention update before the first deploy was answered without error / panic *)
+           (refuse : bool)             (* the job refuses the operator's ack of checkpoint a (OperatorCheckpointComplete errors) *)
+           (redeploy : bool)           (* a second HandleDeploy follows (false: what the code does with the slot otherwise) *)
            (runners : list N) (a : N) (first : list N) (r1 : list N)
            (late : list N) (rl : list N)      (* stale barriers of a that arrive AFTER the second deploy (observed results) *)
            (b : N) (second : list N) (r2 : list N)
@@ -228,22 +230,25 @@ Fixpoint spec_steps (w : nat) (dl : N) (s : sp) (l : list (op * obs)) : list N :
   end.
 
 (* ---------------------------------------------------------------- the operator's checkpoint slot *)
-Definition slot_check (runners : list N) (a : N) (first r1 late rl : list N) (b : N) (second r2 : list N) : list N :=
+Definition slot_check (refuse redeploy : bool) (runners : list N) (a : N) (first r1 late rl : list N) (b : N) (second r2 : list N) : list N :=
   let o0 := oper_deploy current (MkOper [] None) runners in
-  let '(o1, m1) := oper_barriers o0 first a in
-  let o2 := oper_deploy current o1 runners in
-  let '(o3, ml) := oper_barriers o2 late a in
-  let '(_, m2) := oper_barriers o3 second b in
+  let '(o1, m1) := oper_barriers o0 first a (negb refuse) in
+  let o2 := if redeploy then oper_deploy current o1 runners else o1 in
+  let '(o3, ml) := oper_barriers o2 late a true in
+  let '(_, m2) := oper_barriers o3 second b true in
   (if nl_eqb m1 r1 && nl_eqb ml rl then [] else [7]) ++
   (if nl_eqb m2 r2 then [] else [8]) ++
-  (* spec: after the second deploy the barriers of the new checkpoint are all accepted and the last one completes it.
+  (* spec: after the second deploy the barriers of the new checkpoint are all accepted and the last one completes it,
+     whatever the slot was (half aligned, or complete but refused by the job). Without a redeployment nothing is required.
      With stale barriers of the old checkpoint arriving after the redeployment this fails today (known finding, code 103). *)
   let bad := negb (forallb (fun r => negb (r =? 1) && negb (r =? 3)) r2) in
   let incomplete := subset runners second && match rev r2 with 2 :: _ => false | _ => true end in
-  match late with
-  | [] => (if bad then [101] else []) ++ (if incomplete then [102] else [])
-  | _ => if bad || incomplete then [103] else []
-  end.
+  if redeploy then
+    match late with
+    | [] => (if bad then [101] else []) ++ (if incomplete then [102] else [])
+    | _ => if bad || incomplete then [103] else []
+    end
+  else [].
 
 (* the model of the keyed state IS the specification here: after HandleDeploy the state is exactly that of the checkpoint
    the request names (empty if none). A wrong count after a redeployment is code 106; any other difference is code 9. *)
@@ -264,8 +269,8 @@ Definition check_case (c : case) : list N :=
   match c with
   | JobCase w dl steps =>
       diff_steps (MkCfg (N.to_nat w) dl current) init steps ++ spec_steps (N.to_nat w) dl sp0 steps
-  | SlotCase pre_ok runners a first r1 late rl b second r2 =>
-      (if pre_ok then [] else [104]) ++ slot_check runners a first r1 late rl b second r2
+  | SlotCase pre_ok refuse redeploy runners a first r1 late rl b second r2 =>
+      (if pre_ok then [] else [104]) ++ slot_check refuse redeploy runners a first r1 late rl b second r2
   | StateCase steps => state_steps ost0 false steps
   end.
 
